@@ -49,7 +49,9 @@ Inductive event : Type :=
 | EEffect (p : pid) (e : effect) (a : answer)   (* Event::EffectRequest + what the backend answers if asked *)
 | EComplete (p : pid) (res : option val)        (* one item of `process_completions()` *)
 | ESpawn (caller : pid) (vals : list val)       (* Event::SpawnAction: captures ++ [argument] *)
-| ESend (target : pid) (v : val)                (* Event::DeliverAction (it carries no sender) *)
+| ESend (sender target : pid) (v : val)         (* Event::DeliverAction. The event carries NO sender:
+                                                   `sender` is a ghost (who executed the Send instruction),
+                                                   never read by `step` *)
 | EResults (done : list pid)                    (* Event::ProcessResults: the pids whose result is Some *)
 | ETerminate (p : pid)                          (* p completed/failed on its worker *)
 | EOther.                                       (* AwaitAction, ResultResponse, ...: no effect on ownership *)
@@ -179,7 +181,7 @@ Definition step (s : state) (e : event) : state :=
       let s' := handle_effect_completion s p res in
       mkState (owner s') (dead s') (remove_pid p (pending s')) (next_pid s') (log s')
   | ESpawn caller vals => handle_spawn s caller vals
-  | ESend target v => handle_deliver s target v
+  | ESend _ target v => handle_deliver s target v
   | EResults done => handle_process_results s done
   | ETerminate p => mkState (owner s) (p :: dead s) (pending s) (next_pid s) (log s)
   | EOther => s
@@ -196,3 +198,114 @@ Definition closes (l : list call) : list rid :=
 
 (* nothing outstanding in the backend *)
 Definition quiescent (s : state) : Prop := pending s = [].
+
+(* ------------------------------------------------------------------ classes of histories
+   Executable monitors over a history (mirrored by the checker's oracles, vplib/props/c14.py): the
+   hypotheses and the excluded (known-finding) classes of the C14 theorems. *)
+
+Definition memb (r : N) (l : list N) : bool := existsb (N.eqb r) l.
+
+Definition result_rid (res : option val) : list rid :=
+  match res with
+  | Some (VRes r) => [r]
+  | _ => []
+  end.
+
+(* the resource ids the backend hands out in answer to e *)
+Definition issued_by (e : event) : list rid :=
+  match e with
+  | EEffect _ _ (ANow res) => result_rid res
+  | EComplete _ res => result_rid res
+  | _ => []
+  end.
+
+Definition issued (h : list event) : list rid := flat_map issued_by h.
+
+(* assumption on the backend: it never hands out the same id twice
+   (quiver-io native_backend.rs: next_resource_id only grows) *)
+Definition backend_fresh (h : list event) : Prop := NoDup (issued h).
+
+(* the resource ids e moves to a process *)
+Definition transferred (e : event) : list rid :=
+  match e with
+  | ESend _ _ v => rids_of v
+  | ESpawn _ vals => flat_map rids_of vals
+  | _ => []
+  end.
+
+(* does some event of h, met in the state reached by the events before it, satisfy `bad`? *)
+Fixpoint anyb (bad : state -> event -> bool) (s : state) (h : list event) : bool :=
+  match h with
+  | [] => false
+  | e :: t => bad s e || anyb bad (step s e) t
+  end.
+
+(* a ProcessResults event lists a process that has not terminated (the worker never does this:
+   worker.rs query_and_await / check_completed_processes report a result only when it is set) *)
+Definition early_reportb (s : state) (e : event) : bool :=
+  match e with
+  | EResults done => negb (forallb (fun p => memb p (dead s)) done)
+  | _ => false
+  end.
+Definition reports_only_terminated (h : list event) : Prop := anyb early_reportb init h = false.
+
+Definition absentb (s : state) (r : rid) : bool :=
+  match lookup r (owner s) with
+  | None => true
+  | Some _ => false
+  end.
+
+(* F47: an effect on an id that is not in the ownership map *)
+Definition stale_useb (s : state) (e : event) : bool :=
+  match e with
+  | EEffect _ (Op r _) _ => absentb s r
+  | _ => false
+  end.
+Definition KnownF47 (h : list event) : Prop := anyb stale_useb init h = true.
+
+(* F48: a send/spawn carrying an id that is not in the ownership map (closed, or never issued) *)
+Definition stale_transferb (s : state) (e : event) : bool := existsb (absentb s) (transferred e).
+Definition KnownF48 (h : list event) : Prop := anyb stale_transferb init h = true.
+
+(* F49: a send/spawn by process q carrying an id owned by somebody else *)
+Definition initiator (e : event) : option pid :=
+  match e with
+  | ESend sender _ _ => Some sender
+  | ESpawn caller _ => Some caller
+  | _ => None
+  end.
+Definition foreign_transferb (s : state) (e : event) : bool :=
+  match initiator e with
+  | Some q => existsb (fun r => match lookup r (owner s) with
+                                | Some o => negb (N.eqb o q)
+                                | None => false
+                                end) (transferred e)
+  | None => false
+  end.
+Definition KnownF49 (h : list event) : Prop := anyb foreign_transferb init h = true.
+
+(* F10: p was never reported to the environment, or r was given to p after a report *)
+Definition reportsb (p : pid) (e : event) : bool :=
+  match e with
+  | EResults done => memb p done
+  | _ => false
+  end.
+
+(* e, handled in state s, can make p the owner of r *)
+Definition givesb (s : state) (e : event) (p : pid) (r : rid) : bool :=
+  match e with
+  | ESend _ t _ => N.eqb t p && memb r (transferred e)
+  | ESpawn _ _ => N.eqb (next_pid s) p && memb r (transferred e)
+  | EEffect q _ _ | EComplete q _ => N.eqb q p && memb r (issued_by e)
+  | _ => false
+  end.
+
+Fixpoint f10_scan (p : pid) (r : rid) (s : state) (reported given : bool) (h : list event) : bool * bool :=
+  match h with
+  | [] => (reported, given)
+  | e :: t => f10_scan p r (step s e) (reported || reportsb p e)
+                       (given || (reported && givesb s e p r)) t
+  end.
+
+Definition KnownF10 (h : list event) (p : pid) (r : rid) : Prop :=
+  fst (f10_scan p r init false false h) = false \/ snd (f10_scan p r init false false h) = true.
